@@ -4,7 +4,8 @@ from __future__ import annotations
 import itertools
 
 import jmlib
-from geolib import Gen, Obj
+from geolib import Gen, Obj, call_impl
+import numpy as np
 from proto import ET
 
 ID = "C02"
@@ -18,7 +19,40 @@ ASSUMPTIONS = ["zero tests are exact in the model; lattice inputs keep float64 a
 DEGS = ["equal", "multiple", "incident", "skew", "zero", "same-object", None]
 
 
+def same_object_stream(ctx, n):
+    """one Python object passed in several argument positions (adjacent or not) is a dependent configuration like any other:
+    LinearDependenceError, never an internal error of the diagram machinery"""
+    import geometer as g
+    rng = ctx.rng
+    for k in range(n):
+        kind = rng.choice(["join3", "meet3", "join2", "meet2"])
+        def pt(d):
+            return g.Point(*[float(rng.randint(-4, 4)) for _ in range(d)])
+        def pl():
+            return g.Plane(*[float(rng.randint(-4, 4)) for _ in range(3)], float(rng.randint(1, 4)))
+        if kind == "join3":
+            a, b = pt(3), pt(3)
+            f, args = g.join, rng.choice([(a, b, a), (a, a, b), (b, a, a)])
+        elif kind == "meet3":
+            a, b = pl(), pl()
+            f, args = g.meet, rng.choice([(a, b, a), (a, a, b), (b, a, a)])
+        elif kind == "join2":
+            a = pt(rng.choice([2, 3]))
+            f, args = g.join, (a, a)
+        else:
+            a = g.Line(float(rng.randint(1, 4)), float(rng.randint(-4, 4)), float(rng.randint(-4, 4)))
+            f, args = g.meet, (a, a)
+        pattern = "".join("ab"[0 if x is args[0] else 1] for x in args)
+        desc = f"same object {kind} pattern={pattern} {[np.asarray(x.array).tolist() for x in args]}"
+        ctx.case(desc)
+        ctx.count(f"same-object:{kind}:{pattern}")
+        r = call_impl(f, *args)
+        if not (r[0] == "err" and r[1] == "LinearDependence"):
+            ctx.disagree(f"C02:same-object:{kind}", desc, "LinearDependenceError", r[1:3] if r[0] != "ok" else "a result", replay=[desc])
+
+
 def correspondence(ctx):
+    same_object_stream(ctx, ctx.budget(40, 400))
     import glob, json, os
     for f in sorted(glob.glob(os.path.join(os.path.dirname(__file__), "..", "..", "corpus", "C02", "*.json"))):
         replay(ctx, json.load(open(f)))
